@@ -206,6 +206,8 @@ def run(ctx):
                 viol.append(dict(case, kind="group labels after set_ncomp differ from Model/SetNcomp.remap_group", got=got, model=model))
     except Exception as ex:
         viol.append({"kind": "correspondence could not be evaluated", "error": repr(ex)[:500], "no_failing_input_found": True})
+    import regress
+    evals += regress.run("C13", viol)
     for v in viol:
         v.setdefault("finding_class", None)
     return {"evaluations": evals, "distinct_nontrivial": len(distinct),
